@@ -383,6 +383,9 @@ def check(ctx: Ctx):
     # by a label that happens to sit in the same record position) and taken apart by the record's layout
     _c03._guarded(ctx, "R03.2", _c03.check_candidates)
     _c03._guarded(ctx, "R03.4", _c03.check_naive)
+    # pair codes are taken apart with a radix above every reference label, for label sets with gaps too
+    # (every helper of the encoder signature, R03.1)
+    _c03._guarded(ctx, "R03.1", _c03.check_codec)
 
 
 _F = "panoptica/_functionals.py"
